@@ -91,6 +91,7 @@ type Exec struct {
 	opens   int
 	curOp   int
 
+	protected  map[uint64]*model.Entry // acknowledged entries not covered by any issued DeleteRange
 	batches    map[uint64]uint64 // last index of an acked batch -> first index (C09 commit boundaries)
 	retained   []retainedRead    // C12 aliasing: GetLog results kept for later re-verification
 	sigParts   []string
@@ -140,6 +141,7 @@ func NewExec(prop string, cfg Config, plan Plan, tp *tape.Tape) *Exec {
 		createdNames: map[string]int{},
 		idBase:       map[uint64]uint64{},
 		batches:      map[uint64]uint64{},
+		protected:    map[uint64]*model.Entry{},
 		stateSigs:    map[uint64]bool{},
 	}
 	return ex
@@ -158,7 +160,10 @@ func (ex *Exec) logf(format string, args ...interface{}) {
 // statement. A failed oracle that is not listed is ignored (it is another
 // property's business and is reported by that property's check).
 var oraclesOf = map[string][]string{
-	"C01": {"open-succeeds", "contiguous-readable", "content-equal", "bounds", "api-error"},
+	// C01 is exactly its statement: Open succeeds and every acknowledged entry
+	// not covered by an issued DeleteRange is returned identical and bracketed by
+	// First/Last. (Atomicity of in-flight operations is C02/C04's statement.)
+	"C01": {"open-succeeds", "acked-entries-survive", "api-error"},
 	"C02": {"contiguous-readable", "content-equal", "bounds", "api-error"},
 	"C03": {"open-succeeds", "accepts-legal-ops", "model-accepts", "contiguous-readable", "content-equal", "bounds", "api-error", "no-deadlock", "bounded-progress", "close", "stable-get", "stable-map", "no-panic"},
 	"C04": {"open-succeeds", "contiguous-readable", "content-equal", "bounds", "api-error"},
@@ -733,12 +738,50 @@ func (ex *Exec) observeAndCheck(where string, durable, full bool) {
 	if o == nil || ex.stop() {
 		return
 	}
+	if full && !o.Partial {
+		ex.protectedOracle(where, o)
+		if ex.stop() {
+			return
+		}
+	}
 	if d := ex.or.Check(o, durable); d != "" {
 		oracle, class := ex.classifyMismatch(o, durable)
 		ex.violate(oracle, class, "%s: %s", where, d)
 		return
 	}
 	ex.noteState()
+}
+
+// protectedOracle is C01's statement evaluated on a full read-back.
+func (ex *Exec) protectedOracle(where string, o *model.Obs) {
+	if !ex.on("acked-entries-survive") || len(ex.protected) == 0 {
+		return
+	}
+	idxs := make([]uint64, 0, len(ex.protected))
+	for i := range ex.protected {
+		idxs = append(idxs, i)
+	}
+	sort.Slice(idxs, func(a, b int) bool { return idxs[a] < idxs[b] })
+	for _, i := range idxs {
+		e := ex.protected[i]
+		if o.Last == 0 || i < o.First || i > o.Last {
+			ex.violate("acked-entries-survive", "acked-entry-outside-first-last", "%s: acknowledged entry %d (id %x) is outside [FirstIndex,LastIndex]=[%d,%d]", where, i, e.ID, o.First, o.Last)
+			return
+		}
+		if err, bad := o.ReadErr[i]; bad {
+			ex.violate("acked-entries-survive", "acked-entry-unreadable:"+errClass(err), "%s: GetLog(%d) of an acknowledged entry failed: %v", where, i, err)
+			return
+		}
+		got := o.Logs[i]
+		if got == nil {
+			continue
+		}
+		if d := model.DiffLog(e.Log(), got); d != "" {
+			ex.violate("acked-entries-survive", "acked-entry-altered", "%s: acknowledged entry %d differs: %s (want id %x got id %x)", where, i, d, e.ID, model.IDOf(got))
+			return
+		}
+	}
+	ex.probes.Add("protected_entries_checked", int64(len(idxs)))
 }
 
 func (ex *Exec) noteState() {
@@ -960,6 +1003,9 @@ func (ex *Exec) doAppend(op OpSpec) {
 		}
 		ex.batches[es[len(es)-1].Index] = es[0].Index
 		ex.ackedApp++
+		for _, e := range es {
+			ex.protected[e.Index] = e
+		}
 	}
 	ex.settle("StoreLogs", mop, err)
 }
@@ -1044,6 +1090,14 @@ func (ex *Exec) doDelete(op OpSpec) {
 	}
 	mop := model.Op{Kind: model.OpDelete, Min: min, Max: max}
 	ex.inflight = &mop
+	if min <= max {
+		// an entry stops being protected the moment a DeleteRange covering it is issued
+		for idx := range ex.protected {
+			if idx >= min && idx <= max {
+				delete(ex.protected, idx)
+			}
+		}
+	}
 	// metric expectation is derived from the model before the call
 	var hr, tr uint64
 	if d := ex.or.Definite(); d != nil && d.Legal(mop) {
